@@ -489,6 +489,32 @@ func statusOfFailureCall(ci ssa.CallInstruction) (int64, bool) {
 	return 0, false
 }
 
+// foundIndexOf: idx is slices.Index / slices.IndexFunc (…) of the same slice and every path knows it is >= 0
+func foundIndexOf(st km.DNF, idx, base ssa.Value) bool {
+	cl, ok := km.Unwrap(idx).(*ssa.Call)
+	if !ok {
+		return false
+	}
+	name := km.CalleeFull(cl.Common())
+	if i := strings.Index(name, "["); i > 0 {
+		name = name[:i]
+	}
+	if name != "slices.Index" && name != "slices.IndexFunc" || len(cl.Common().Args) < 1 || !sameOperand(cl.Common().Args[0], base) {
+		return false
+	}
+	return len(st) > 0 && st.All(func(k km.Conj) bool {
+		for _, f := range k.List() {
+			if f.X != ssa.Value(cl) {
+				continue
+			}
+			if y, isC := km.ConstInt(f.Y); isC && ((f.Op == token.GEQ && y == 0) || (f.Op == token.GTR && y == -1) || (f.Op == token.NEQ && y == -1)) {
+				return true
+			}
+		}
+		return false
+	})
+}
+
 func lenAtLeast(k km.Conj, operand ssa.Value, n int64) bool {
 	for _, f := range k.List() {
 		var lenSide, other ssa.Value
@@ -658,6 +684,8 @@ func checkDecoderPanics(c *km.Ctx, s *km.Sem) {
 					}
 				} else if idxBelowLen(st, idx, base) {
 					guarded, how = true, "index < len guard"
+				} else if foundIndexOf(st, idx, base) {
+					guarded, how = true, "index returned by slices.Index/IndexFunc over the same slice, tested >= 0"
 				} else if fn.Name() == "decodeIPV4AddressChoice" {
 					continue // judged by the dedicated bounded-copy obligations below
 				}
